@@ -21,7 +21,7 @@ CLAIMED = {
  "C03": dict(
   text="(a) every accepted header equals the reference parse of the bytes at the cursor for a fully symbolic 24-byte buffer (id, type, size, header length), read position unchanged; "
        "(b) public next() on an enumerated family of master-free documents with all payload bytes symbolic: id at reported offset, value == reference decoding of exactly the payload bytes, offsets tile, then None; "
-       "implied ancestors of a mid-document start are stored with offset 0. End/Full offsets (read_next/buffer_master) not covered.",
+       "implied ancestors of a mid-document start are stored with offset 0; (c) the logical position current_offset() — the value every reported offset is taken from — is unchanged by a refill from any (cursor, fill) incl. cursor == fill (refill unit, symbolic cursor), and by peeking a header across a refill (thorough: hdr_refill_*). End/Full offsets (read_next/buffer_master) not covered.",
   design_ref="DESIGN.md §6 C03", note="Tiling for arbitrary streams = (a) + cursor advance observed in (b), by induction (T5). Specs Flat/Tree; payload <= 8 bytes; <= 3 items per document.",
   technique=T + "header unit on symbolic window + public next() on enumerated skeletons with symbolic payloads"),
  "C04": dict(
